@@ -141,6 +141,19 @@ def main():
         open(OUT, "w").write(text); print("gen_grammar: wrote", os.path.normpath(OUT))
     else:
         print("gen_grammar: unchanged")
+    # lookup lemmas (one per rule), used by the builder-totality proofs of C03
+    F = ["-- GENERATED by tools/gen_grammar.py from emulator-2a-lib/syntax/mrasm.pest. DO NOT EDIT.",
+         "import Emu2a.Gen.Grammar", "namespace Emu2a.Gen", "open Emu2a.Peg", ""]
+    for n, m, e in rules:
+        F.append("theorem find_%s : mrasm.find \"%s\" = some ⟨\"%s\", %s, rule_%s⟩ := rfl" % (n, n, n, "true" if m == "_" else "false", n))
+    F.append("")
+    F.append("/-- The names of all rules, in grammar order. -/")
+    F.append("def ruleNames : List String := [%s]" % ", ".join('"%s"' % n for n, m, e in rules))
+    F += ["", "end Emu2a.Gen"]
+    ftext = "\n".join(F) + "\n"
+    FOUT = os.path.join(os.path.dirname(OUT), "GrammarFind.lean")
+    if not os.path.exists(FOUT) or open(FOUT).read() != ftext:
+        open(FOUT, "w").write(ftext)
 
 if __name__ == "__main__":
     main()
